@@ -13,7 +13,6 @@ VERIF = Path(__file__).resolve().parent.parent
 REPO = Path(os.environ.get("VERIF_REPO", "/repo")).resolve()
 COQ = VERIF / "coq"
 WORK = VERIF / ".work"
-WORK = VERIF / ".work"
 # evidence of runs against a scratch tree (VERIF_REPO) must never overwrite the evidence of /repo
 EVIDENCE = VERIF / "evidence" if str(REPO) == "/repo" else WORK / "evidence-scratch"
 REPLAYS = VERIF / "replays"
